@@ -298,8 +298,21 @@ Proof.
   destruct (Nat.ltb_spec a b); [apply Z.ltb_lt|apply Z.ltb_ge]; lia.
 Qed.
 
+Lemma py_nth_pred_nat {A} (l : list A) i : (1 <= i)%nat -> py_nth l (Z.of_nat i - 1) = nthP l (i - 1).
+Proof. intros H. replace (Z.of_nat i - 1) with (Z.of_nat (i - 1)) by lia. apply py_nth_nat. Qed.
+
+Lemma lastP_app1 {A} (l : list A) x : lastP (l ++ [x]) = Ret x.
+Proof. unfold lastP. rewrite rev_app_distr. reflexivity. Qed.
+
+Lemma py_nth_0_ok_label (l : list label) : (0 < length l)%nat -> py_nth l 0 = Ret (nth 0 l ""%string).
+Proof. exact (py_nth_ok_label l 0). Qed.
+Lemma py_set_0_ok {A} (l : list A) x : (0 < length l)%nat -> py_set l 0 x = Ret (upd l 0 x).
+Proof. exact (py_set_nat l 0 x). Qed.
+
 Ltac prim_nth p :=
   lazymatch p with
+  | py_nth ?l 0 => rewrite (py_nth_0_ok_label l) by lens
+  | py_set ?l 0 ?x => rewrite (py_set_0_ok l x) by lens
   | py_nth ?l (Z.of_nat ?i - 1) => rewrite (py_nth_pred_label l i) by lens
   | py_nth ?l (Z.of_nat ?i) =>
       first [ rewrite (py_nth_ok_label l i) by lens | rewrite (py_nth_err l i) by lens ]
@@ -322,3 +335,26 @@ Ltac step :=
       end
   end.
 Ltac steps := rs; try reflexivity; repeat step.
+
+(* ---- more index forms ------------------------------------------------------------------------------- *)
+Lemma py_range_down_to0 h : py_range_down (Z.of_nat h - 1) 0 = map Z.of_nat (rev (seq 1 (h - 1))).
+Proof. exact (py_range_down_nat h 1). Qed.
+
+Lemma py_range_down_m2 h : py_range_down (Z.of_nat h - 2) 0 = map Z.of_nat (rev (seq 1 (h - 2))).
+Proof.
+  destruct h as [|[|k]]; [reflexivity|reflexivity|].
+  replace (Z.of_nat (S (S k)) - 2) with (Z.of_nat (S k) - 1) by lia.
+  rewrite py_range_down_to0. replace (S k - 1)%nat with (S (S k) - 2)%nat by lia. reflexivity.
+Qed.
+
+Lemma py_range_down_to_m1 h : py_range_down (Z.of_nat h - 1) (-1) = map Z.of_nat (rev (seq 0 h)).
+Proof. rewrite <- (Nat.sub_0_r h) at 2. exact (py_range_down_nat h 0). Qed.
+
+Lemma py_nth_len_m1 {A} (l : list A) : py_nth l (Z.of_nat (length l) - 1) = lastP l.
+Proof.
+  destruct l as [|y l _] using rev_ind; [reflexivity|].
+  rewrite app_length. cbn [length].
+  replace (Z.of_nat (length l + 1) - 1) with (Z.of_nat (length l)) by lia.
+  rewrite py_nth_nat. unfold nthP, nth_res, lastP.
+  rewrite nth_error_app2, Nat.sub_diag, rev_app_distr by lia. reflexivity.
+Qed.
